@@ -121,6 +121,56 @@ def oracle_sweep(ctx, isa):
     return not bad and not errors
 
 
+def graph_sweep(ctx, isa, only=None):
+    """"Treated as dependent" is observed where the relation is USED: for every same-family pair of the universe and as many random
+    cross-family pairs, the two-line kernel `write a ; read b` (unknown mnemonic, default roles) must have the dependency edge in
+    KernelDG iff the registers overlap architecturally."""
+    import models
+    from osaca.parser import ParserX86ATT, ParserAArch64
+    from osaca.semantics import KernelDG
+    U = universe_x86() if isa == "x86" else universe_a64()
+    show = (lambda u: "%" + u[1]) if isa == "x86" else (lambda u: (u[1] + u[2]) if u[2].lower() != "sp" or u[1].lower() == "w" else u[2])
+    fam = lambda u: u[0]
+    mm, sem = models.load("zen2" if isa == "x86" else "n1")
+    parser = ParserX86ATT() if isa == "x86" else ParserAArch64()
+    same = [(i, j) for i in range(len(U)) for j in range(len(U)) if i != j and fam(U[i]) == fam(U[j])]
+    ctx.rng.shuffle(same)
+    same = same[:ctx.n(400, 4000)]
+    cross = []
+    while len(cross) < len(same):
+        i, j = ctx.rng.randrange(len(U)), ctx.rng.randrange(len(U))
+        if fam(U[i]) != fam(U[j]):
+            cross.append((i, j))
+    pairs = same + cross
+    if only:
+        idx = {show(u).lstrip("%").lower(): k for k, u in enumerate(U)}
+        pairs = [(idx[only[0].lstrip("%").lower()], idx[only[1].lstrip("%").lower()])]
+    bad, n = [], 0
+    for i, j in pairs:
+        a, b = U[i], U[j]
+        tg = [u for u in U if fam(u) not in (fam(a), fam(b))]
+        t = show(tg[(i * 31 + j) % len(tg)])
+        text = ("foo $1, %s\nfoo %s, %s\n" % (show(a), show(b), t)) if isa == "x86" else ("foo %s, #1\nfoo %s, %s\n" % (show(a), t, show(b)))
+        try:
+            kernel = parser.parse_file(text)
+            sem.add_semantics(kernel)
+            dg = KernelDG(kernel, parser, mm, sem)
+            has = dg.dg.has_edge(1, 2)
+        except Exception as e:  # noqa
+            bad.append((show(a), show(b), "raises %r" % e))
+            continue
+        n += 1
+        want = fam(a) == fam(b)
+        if has != want:
+            bad.append((show(a), show(b), "edge %s, architectural overlap %s" % (has, want)))
+    ctx.count(n)
+    ctx.coverage.setdefault("graph_level_pairs", {})[isa] = n
+    if bad:
+        a, b, what = bad[0]
+        ctx.violation("%s-dependency-graph-differs-from-overlap" % isa, "%d of %d two-line kernels `write a ; read b` wrong; first: %s then %s: %s"
+                      % (len(bad), len(pairs), a, b, what), {"isa": isa, "graph": [a, b]})
+
+
 def correspondence(ctx, isa):
     """Translated Gallina vs the Python original, all ordered pairs, inputs = constructed operands."""
     U, fams, rows, errors = py_matrix(ctx, isa, use_parser=False)
@@ -187,6 +237,7 @@ def run(ctx):
     # direct search on the implementation (always run: it is cheap and exhaustive)
     for isa in ("x86", "aarch64"):
         oracle_sweep(ctx, isa)
+        graph_sweep(ctx, isa)
     ctx.coverage["exhaustive"] = True
 
 
@@ -195,6 +246,8 @@ def replay(ctx, obj):
     r = obj["replay"]
     if "isa" not in r:
         return run(ctx)
+    if "graph" in r:
+        return graph_sweep(ctx, r["isa"], only=r["graph"])
     p = ParserX86ATT() if r["isa"] == "x86" else ParserAArch64()
     fmt = "foo %%%s, %%%s" if r["isa"] == "x86" else "foo %s, %s"
     ops = p.parse_line(fmt % (r["a"], r["b"])).operands
